@@ -249,7 +249,33 @@ def gen_spike(tier, rng):
         cases.append({"xs": frs(xs), "method": rng.choice(["average", "differential", None]),
                       "st": rng.choice([core.fr(t) for t in thr] + ["absent", core.fr(F(1, 2))]),
                       "ft": rng.choice([core.fr(t) for t in thr] + ["absent", core.fr(F(3))])})
+    # the same kind of series far from zero (exact in float64): magnitudes must not matter, only differences
+    for _ in range(150 if tier == "quick" else 1500):
+        n = rng.randint(3, 8)
+        off = F(rng.choice([2 ** 24, 2 ** 30 + 1, -(2 ** 33), 101325 * 1024]))
+        xs = [None if (x := rng.choice(alpha + [F(-3), F(7, 2), F(1, 8)])) is None else x + off for _ in range(n)]
+        cases.append({"xs": frs(xs), "method": rng.choice(["average", "differential"]),
+                      "st": rng.choice([core.fr(t) for t in thr] + [core.fr(F(1, 2))]),
+                      "ft": rng.choice([core.fr(t) for t in thr] + [core.fr(F(3))])})
     for m in ("median", "", "Average"):
         cases.append({"xs": frs([F(1), F(5), F(1)]), "method": m, "st": "1", "ft": "2"})
         cases.append({"xs": [], "method": m, "st": "1", "ft": "2"})
     return cases
+
+
+BIG_OFFSETS = [2 ** 24, 2 ** 30 + 1, -(2 ** 33), 101325 * 1024]
+
+
+def big_shift_copies(cases, key, rng, count, keep=lambda c: True):
+    """copies of `count` random cases with every value of c[key] moved by an offset far above the data's
+    resolution (exact in float64: the values are small multiples of 1/64 or 1/2^20): magnitudes must not
+    matter to the difference-based tests, so a narrowed intermediate or a relative tolerance shows here"""
+    import copy
+    pool = [c for c in cases if keep(c) and any(x is not None for x in c.get(key, []))]
+    out = []
+    for c in (rng.sample(pool, count) if len(pool) > count else pool):
+        d = copy.deepcopy(c)
+        off = F(rng.choice(BIG_OFFSETS))
+        d[key] = [None if x is None else core.fr(F(x) + off) for x in c[key]]
+        out.append(d)
+    return out
